@@ -23,6 +23,9 @@ def run(ctx):
         kw.setdefault("env", {}).update(env)
         return orig(worker, cases, **kw)
     ctx.run_impl = run_impl
+    # the window loop of _fast_hits, one action per window; the as-found bound range(L - w) is the spec-level mutant
+    ctx.model_check("FimoLoop", "FimoLoop_MC.cfg")
+    ctx.spec_mutant("FimoLoop", "FimoLoop_MC_asfound.cfg", violated="EveryWindowScored")
     std.m1(ctx, "FimoScan", "FimoScan_MC_quick.cfg" if ctx.quick else "FimoScan_MC_thorough.cfg", "c12", evkeys=("op", "motif", "seq", "thr"),
            nproc=16)
 
